@@ -30,6 +30,17 @@ TextCases ==
   \cup {[kind |-> "text", host |-> TagHtml("div"), children |-> Positioned(t, pos)] :
           t \in Texts(MaxTextPos) \ {<<>>}, pos \in {"after", "before", "between", "elems"}}
 
+(* texts of three lines, beyond the length bound of the exhaustive family: every arrangement of leading / trailing *)
+(* blanks around the content of the first, the inner and the last line                                       *)
+Blanks == {<<>>, <<"sp">>, <<"tab">>, <<"sp", "sp">>, <<"nbsp">>} \cap SeqsUpTo(Alphabet, 2)
+Breaks == {<<"lf">>, <<"crlf">>} \cap SeqsUpTo(Alphabet, 1)
+LineTexts ==
+  {l1 \o t1 \o br1 \o h2 \o c2 \o t2 \o br2 \o h3 \o c3 :
+     l1 \in {<<>>, <<"a">>}, t1 \in {<<>>, <<"sp">>}, br1 \in Breaks, h2 \in {<<>>, <<"sp">>, <<"tab">>} \cap Blanks,
+     c2 \in {<<>>, <<"b">>, <<"b", "sp", "a">>}, t2 \in Blanks, br2 \in Breaks, h3 \in {<<>>, <<"sp">>}, c3 \in {<<>>, <<"a">>}}
+LineCases ==
+  {[kind |-> "text", host |-> TagHtml("div"), children |-> Positioned(t, pos)] : t \in LineTexts, pos \in {"only", "before"}}
+
 ChildAtoms == {ChText(<<"a">>), ChText(<<"sp">>), ChText(<<"lf", "sp">>), ChExpr(X1), ChExpr(X2),
                ChExpr(Call("f1", Arr(<<Str(<<113>>)>>))), ChEmpty, ChComment,
                ChSpread(Ident("xs", FALSE, Arr(<<Opq("e1"), Opq("e2")>>))),
@@ -44,7 +55,7 @@ SeqCases ==
 Opts == [DefaultOpts EXCEPT !.patterns = <<"^i-", "(?i)^ion-">>]
 
 CaseSeq ==
-  LET raw == SetToSeq(TextCases \cup SeqCases) IN
+  LET raw == SetToSeq(TextCases \cup SeqCases) \o SetToSeq(LineCases) IN
   [i \in 1..Len(raw) |->
      [case |-> "C02-" \o ToString(i), prop |-> "C02", opts |-> Opts, kind |-> raw[i].kind,
       items |-> << [k |-> "export_jsx", name |-> "s1", ctx |-> "module",
